@@ -53,6 +53,7 @@ type Features struct {
 	SharedOwner bool // several bare pods under one controller
 	AllNsObjs   bool // every namespace has an object (needed by the eval CLI)
 	PodsOnly    bool // only bare pods (eval CLI)
+	PortDrift   bool // pods of one owner agree on labels but not on container ports (a rollout in progress)
 }
 
 var allKinds = []string{"Deployment", "ReplicaSet", "StatefulSet", "DaemonSet", "Job", "CronJob", "ReplicationController", "Pod"}
@@ -69,6 +70,7 @@ func drawFeatures(r *rng) Features {
 		Exprs:       r.chance(1, 2),
 		SharedOwner: r.chance(1, 3),
 	}
+	f.PortDrift = f.SharedOwner && r.chance(1, 3)
 	if r.chance(1, 3) {
 		f.NANPs = r.between(1, 4)
 		f.BANP = r.chance(1, 2)
@@ -479,7 +481,11 @@ func genWorld(r *rng, f Features) *World {
 				okind := pick(r, []string{"ReplicaSet", "StatefulSet", "DaemonSet"})
 				for k, n := 0, r.between(2, 3); k < n; k++ {
 					name := fmt.Sprintf("bp%d-%c", i, 'x'+k)
-					w.Docs = append(w.Docs, podDoc(ns, name, labels, ports, owner, okind, status))
+					pp := ports
+					if f.PortDrift && k > 0 {
+						pp = randContainerPorts(r)
+					}
+					w.Docs = append(w.Docs, podDoc(ns, name, labels, pp, owner, okind, status))
 					w.Pods = append(w.Pods, ns+"/"+name)
 				}
 				w.Workloads = append(w.Workloads, ns+"/"+owner)
